@@ -84,6 +84,22 @@ def gen_cases(tier, seed):
             for pos in range(0, len(base) + 1, step):
                 sched = base[:pos] + [4] * len(killer) * 3 + base[pos:]
                 add("plain", progs, sched + drain(progs) + [3] * 40, "systematic-pump-" + cause, pos > 0)
+    # a transport that stalls (the peer stops reading: writes stay pending, no error): outside the model (a model write
+    # completes or fails), run on the implementation only and judged by the oracle. Two opens complete, the transport
+    # stalls, one task's write hangs inside the transport holding the writer mutex, then a cause fires.
+    for cause in ("close", "eof", "alert", "err"):
+        tok = CAUSES[cause][0]
+        for off in (0, 5, 700):
+            for kinds in (("reader", "opener"), ("opener", "writer"), ("sender", "reader")):
+                w1, w2 = worker(r, 1, kinds[0]), worker(r, 2, kinds[1])
+                progs = [[], w1, w2, ["STALL:%d" % off, "B0", "W:2:77:ffff"], [tok]]
+                if "sender" in kinds:
+                    progs.insert(3, pump_prog(60))
+                st, cl = len(progs) - 2, len(progs) - 1
+                for pre in (11, 12, 14, 22):
+                    sched = ([1, 2] * pre)[:2 * pre] + [st] * 9 + [1, 2] * 3 + [cl] * 4
+                    toks = render("plain", progs, sched + drain(progs))
+                    cs.append(Case("c%d" % (len(cs) + 1), "conc", toks, "stalled-transport-" + cause, True, {"ntasks": len(progs)}, model=False))
     # random
     n = 600 if tier == "quick" else 15000
     for i in range(n):
@@ -115,10 +131,58 @@ def midburst(c):
     return any(a.startswith("FAIL:") for a in c.args)
 
 
+def stalled(c):
+    return any(a.startswith("STALL:") for a in c.args)
+
+
+def oracle_stalled(c, o, ir):
+    """the transport stopped accepting bytes. Waiters must still be released; what is blocked behind the stalled write
+    (the writer itself, tasks queued on the writer mutex, close() waiting for that mutex, the transport shutdown) is the
+    recorded finding F4 and is reported with that tag."""
+    args = " ".join(c.args)
+    progs = [[x for x in p.split() if x != "-"] for p in args.split(" sched ")[0].split("|")[1:]]
+    if not o["closed"]:
+        return "a termination cause occurred but the session is not visibly closed (stalled transport)"
+    f4 = []
+    for t, (pc, res) in o["tasks"].items():
+        if t == 0:
+            if pc not in ("done", "recv", "-", "queued", "close.before_writer"):
+                return "the receive task is stuck at %s (stalled transport)" % pc
+            if pc in ("queued", "close.before_writer"):
+                f4.append("the receive task's close() waits for the writer mutex")
+            continue
+        prog = progs[t] if t < len(progs) else []
+        if is_pump_prog(prog):
+            if pc not in ("done", "pump.wait", "pump.loop", "h.call", "queued", "stalled-in-transport"):
+                return "the forwarding task is stuck at %s (stalled transport)" % pc
+            continue
+        if pc == "done":
+            if len(res) == len(prog):
+                for call, rr in zip(prog, res):
+                    if call == "R" and rr not in ("eof", "data", "nostream", "readerr"):
+                        return "task %d: reader ended with %s" % (t, rr)
+            continue
+        if pc == "stalled-in-transport":
+            f4.append("task %d's write never returns (pending inside the transport, writer mutex held)" % t)
+        elif pc == "queued":
+            nxt = prog[len(res)] if len(res) < len(prog) else "?"
+            f4.append("task %d is queued on the writer mutex for ever (call %s)" % (t, "close()" if nxt == "X" else nxt))
+        else:
+            # anybody else must have been released: readers, pending opens, later calls
+            return "task %d never finished: stuck at %s with results %s although it does not wait for the transport (stalled transport)" % (t, pc, res)
+    if not o["shut"]:
+        f4.append("the transport is never shut down")
+    if f4:
+        return "[F4-stalled-transport] " + "; ".join(f4)
+    return None
+
+
 def oracle(c, ir):
     o = parse_out(ir)
     if o is None:
         return "unparsable implementation output: " + ir[:200]
+    if stalled(c):
+        return oracle_stalled(c, o, ir)
     frames = [f for _, fr in o["bursts"] for f in fr]
     if "TRUNCATED" in frames and not midburst(c):
         return "a burst on the transport was cut although no fault was injected inside it: %s" % ir[:300]
@@ -172,3 +236,12 @@ def same(c, ir, mr):
         # a fault inside a burst leaves a partial burst on the real transport; compare everything but the wire
         return ir.split("|", 1)[-1] == mr.split("|", 1)[-1] and ir.split("W", 1)[0] == mr.split("W", 1)[0]
     return ir == mr
+
+
+def match_known(c, failure, findings):
+    if not failure.startswith("[F4-stalled-transport] ") or not stalled(c):
+        return None
+    for k in findings:
+        if k.get("match", {}).get("oracle_tag") == "F4-stalled-transport":
+            return k
+    return None
